@@ -3,6 +3,7 @@ import Proofs.DeltaRoot
 import Proofs.DeltaFlat
 import Proofs.DeltaList
 import Proofs.DeltaNested
+import Proofs.DeltaOpcodes
 import Properties.C02
 /-!
 # C01 — applying `Delta(DeepDiff(t1, t2))` to `t1` reproduces `t2`
@@ -251,5 +252,41 @@ example : J false (.dict [(.str "a", .dict [(.str "x", .int 1), (.str "y", .dict
       · exact hb _ rfl
       · exact J.dict (by simp [StrKeys]) (by simp) (fun _ _ => rfl) (by intro p hp; simp at hp)
     · exact hb _ rfl
+
+/-! ### lists of scalars in the default mode, with recorded opcodes -/
+
+/-- **Round trip for lists of scalars in the default mode when the difflib pass is kept and its opcodes are recorded**
+(it reports at least two entries and fewer than the pairwise pass): for every alignment that tiles the two lists with
+monotone blocks (what `difflib.SequenceMatcher.get_opcodes` returns; checked on every observed opcode list), directed or
+not, with or without `always_include_values`, bidirectional or not, `t1 + Delta(DeepDiff(t1, t2))` is exactly the list `t2`
+and nothing escapes: the change entries only write inside blocks that are not `equal`, and the rebuild from the opcodes
+only reads the `equal` blocks.  Together with `C01_list_pairwise_roundtrip` this covers the default mode for lists of
+scalars except when the difflib pass reports a single entry. -/
+theorem C01_list_opcodes_roundtrip (cfg : DCfg) (hp : Diff.Plain cfg) (hz : cfg.zip = false) (al : Align) (hashOf : PyVal → String)
+    (bidir directed always : Bool) (xs ys : List PyVal) (hbx : ∀ x ∈ xs, isBasic x = true) (hby : ∀ y ∈ ys, isBasic y = true)
+    (htiles : TilesO xs ys 0 0 (al xs ys)) (hmono : ∀ o ∈ al xs ys, o.i1 ≤ o.i2)
+    (h1 : 2 ≤ (opcodeEntries [] xs ys (al xs ys)).length)
+    (h2 : (opcodeEntries [] xs ys (al xs ys)).length < (pairBasic [] 0 0 xs ys).length) :
+    (applyDelta bidir (buildDelta directed always (.list xs) (.list ys) (deepDiff cfg al hashOf (.list xs) (.list ys))) (.list xs)).root = .list ys ∧
+    (applyDelta bidir (buildDelta directed always (.list xs) (.list ys) (deepDiff cfg al hashOf (.list xs) (.list ys))) (.list xs)).raised = none :=
+  list_opcodes_roundtrip cfg hp hz al hashOf bidir directed always xs ys hbx hby htiles hmono h1 h2
+
+/-- the hypotheses are met: `[1, 2, 3, 4]` against `[1, 3, 4, 5, 6]` with difflib's opcodes (equal, delete, equal, insert) -/
+example : let xs : List PyVal := [.int 1, .int 2, .int 3, .int 4]
+    let ys : List PyVal := [.int 1, .int 3, .int 4, .int 5, .int 6]
+    let ops : List Opcode := [{ tag := "equal", i1 := 0, i2 := 1, j1 := 0, j2 := 1 }, { tag := "delete", i1 := 1, i2 := 2, j1 := 1, j2 := 1 },
+      { tag := "equal", i1 := 2, i2 := 4, j1 := 1, j2 := 3 }, { tag := "insert", i1 := 4, i2 := 4, j1 := 3, j2 := 5 }]
+    TilesO xs ys 0 0 ops ∧ (∀ o ∈ ops, o.i1 ≤ o.i2) ∧ 2 ≤ (opcodeEntries [] xs ys ops).length ∧
+    (opcodeEntries [] xs ys ops).length < (pairBasic [] 0 0 xs ys).length := by
+  intro xs ys ops
+  have e1 : (opcodeEntries [] xs ys ops).length = 3 := by
+    simp [xs, ys, ops, opcodeEntries]
+  have e2 : (pairBasic [] 0 0 xs ys).length = 4 := by
+    simp [xs, ys, pairBasic, leafDiff, typeName, pyEq, numEq, numOf, pow10]
+  refine ⟨?_, ?_, by omega, by omega⟩
+  · simp [xs, ys, ops, TilesO]
+  · intro o ho
+    simp [ops] at ho
+    rcases ho with rfl | rfl | rfl | rfl <;> simp
 
 end Delta
